@@ -392,6 +392,7 @@ class LiveLab:
         kw = dict(max_order_exposure=None, max_selection_exposure=None, max_trade_count=10**6, max_live_trade_count=10**6)
         kw.update(strategy_kwargs or {})
         self.strategies = []
+        self._Strat, self._skw = Strat, kw
         for n in strategies:
             s = Strat(market_filter={"x": 1}, name=n, **kw)
             self.fw.strategies(s, self.fw.clients, self.fw)
@@ -422,6 +423,15 @@ class LiveLab:
         self.prices = [world.ladder_prices(s) for s in market_specs]
 
     # ---- market data -------------------------------------------------------------------------
+    def add_strategy(self, name):
+        """register a further strategy on the running framework (as flumine.add_strategy does)"""
+        s = self._Strat(market_filter={"x": 1}, name=name, **self._skw)
+        self.fw.strategies(s, self.fw.clients, self.fw)
+        self.strategies.append(s)
+        for uid in self.uids:
+            s.historic_stream_ids.add(uid)
+        return s
+
     def feed(self, mi, step=None):
         r = self.renderers[mi]
         if not r.lines:
